@@ -6,8 +6,8 @@
       `recurse` flag), `insert_declaration`, `insert_import`, `parent_module`,
       `module_name`, `print_scope`;
     * `resolve_module_part_of_path` (`src/typechecker/expr.rs`): leading
-      `super`s, first segment with recursion unless it follows a `super`, later
-      segments without;
+      `super`s, first segment with recursion unless it follows a `super` — from the
+      global scope when it is `pkg` —, later segments without;
     * `TypeChecker::import` / `imports` (`src/typechecker/mod.rs`): the
       retain-until-no-progress loop;
     * the passes of `check_module_tree` as far as names are concerned:
@@ -263,7 +263,9 @@ def supers (g : Graph) : Nat → Name → List Name → Bool → Res PathRes
           match rest with
           | [] => .ok ⟨id, dec, []⟩
           | id' :: rest' => supers g s' id' rest' true
-    else segments g s id rest (!after)
+    else
+      -- `pkg` at the start of a path is looked up in the global scope
+      segments g (if !after && id = PKG then 0 else s) id rest (!after)
 
 /-- `TypeChecker::resolve_module_part_of_path` -/
 def resolveModulePart (g : Graph) (s : Nat) : Path → Res PathRes
